@@ -117,7 +117,7 @@ pub fn run_c14(cfg: &Cfg, rep: &mut Report) {
             explore_poll(cfg, rep, &[2, 13], &v2[..1], 0, 300_000, "c14-two-channel");
         }
     }
-    let total = cfg.size(3_000, 3_000_000, 150_000_000);
+    let total = cfg.size(3_000, 10_000_000, 200_000_000);
     random_poll_histories(cfg, rep, total, 0xC14_00, false);
     rep.set_exhaustive(false);
     rep.sample(json!({"history":["B0 63 00","B0 62 01","B0 06 01","B0 60 00"],"timeout_ns":2000,"expected":"second-to-last: nothing; last feed returns [7-bit data entry 1, increment 0]"}));
@@ -318,8 +318,8 @@ pub fn run_c13(cfg: &Cfg, rep: &mut Report) {
             rep.inconclusive("C13 explorer (timeout 3 ticks) did not reach a fixpoint");
         }
     }
-    random_poll_histories(cfg, rep, cfg.size(3_000, 2_000_000, 100_000_000), 0xC13_00, true);
-    metamorphic(cfg, rep, cfg.size(1_000, 600_000, 20_000_000));
+    random_poll_histories(cfg, rep, cfg.size(3_000, 8_000_000, 150_000_000), 0xC13_00, true);
+    metamorphic(cfg, rep, cfg.size(1_000, 2_000_000, 40_000_000));
     rep.set_exhaustive(false);
     rep.sample(json!({"template":["x","y","B5 26 21","tick T","poll 5 -> None","B5 06 2C -> nothing","tick T","poll 5 -> 7-bit 44"],"meaning":"unpaired LSB dropped by the first poll after the timeout"}));
     rep.sample(json!({"template":["x","y","B5 06 2C","tick T-1","poll 5 -> None","tick 1","poll 5 -> 7-bit 44","poll 5 -> None"],"meaning":"poll reports exactly from the deadline on, once"}));
@@ -839,7 +839,7 @@ pub fn run_c12(cfg: &Cfg, rep: &mut Report) {
         rep.count("c12_enumerated_sentences", sentences);
         rep.distinct_nontrivial += sentences;
         // seeded random long sentences on up to 16 interleaved channels
-        let n_random = cfg.size(20, 4_000, 300_000) / nsh as u64;
+        let n_random = cfg.size(20, 24_000, 600_000) / nsh as u64;
         for k in 0..n_random {
             let timeout = *rng.pick(&[0u64, 1, T2, 5 * TICK, T_INF]);
             let nch = *rng.pick(&[1usize, 2, 3, 16]);
